@@ -34,7 +34,7 @@ func init() {
 			e.universes = []chainState{{}, {Queue: true}}
 			e.ops = []chainOp{markOp("fail-y-exit"), markOp("fail-x-exit"), markOp("fail-y-noout"), markOp("fail-y-mid"), opTaintY, opBuild, opBuildFF}
 			if thorough {
-				e.ops = append(e.ops, markOp("fail-y-timeout"), opEditY)
+				e.ops = append(e.ops, markOp("fail-y-timeout"), opEditY, markOp("w-self-destroy"), opEditFirst)
 			}
 		})(c)
 	}
